@@ -11,7 +11,6 @@ EPERM_EXC = {
     "hwloc_distances_add_commit": "acts on a handle that only the guarded hwloc_distances_add_create can hand out",
     "hwloc_distances_add_values": "acts on a handle that only the guarded hwloc_distances_add_create can hand out",
     "hwloc_distances_add": "deprecated wrapper: starts with the guarded hwloc_distances_add_create",
-    "hwloc_topology_allow": "works on adopted topologies by design: the allowed sets are private (R-PRIV); LOCAL_RESTRICTIONS adds topology infos, also private",
 }
 TMA_OWNERS = {
     "hwloc_tma_malloc": "the one place that falls back to malloc when no tma is given",
